@@ -7,6 +7,7 @@
      run <junk> <dst hex|-> <src hex> <codec2 table hex|-> <items>   (impl only)
           items: comma separated, integer = sample, t = timeout, on = ptt_on, off = ptt_off
                                               -> mode=<n> rem=<n> bytes=<hex> audio=<md5>    or   blocked
+     runsegs <junk> <table hex|-> <dst hex|->/<src hex>/<items> ...   (impl only; source()/dest() between segments)
      keyup <dst hex|-> <src hex> <table hex|-> <samples csv|-> <last>   (spec only)
                                               -> bytes=<hex> audio=<md5>
      queue <blocks 0|1> <cap> <nbytes> <trace of P/C>  -> todo=<n> fifo=<n> got=<n> inorder=<0|1> *)
@@ -53,6 +54,16 @@ let () =
     | ["run"; junk; hd; hs; ht; items] ->
       let table = chunks8 (bytes_of_hex ht) in
       (match c14_impl_run (n_of_int (int_of_string junk)) (bytes_of_hex hd) (bytes_of_hex hs) table (List.map item_of_string (csv items)) with
+       | Some (((m, out), reqs), rem) ->
+         Printf.printf "mode=%d rem=%d bytes=%s audio=%s\n" (int_of_n m) (int_of_nat rem) (hex_of_bytes out) (audio_md5 reqs)
+       | None -> print_endline "blocked")
+    | "runsegs" :: junk :: ht :: segs ->
+      (* each segment: <dst hex|->/<src hex>/<items csv|-> *)
+      let table = chunks8 (bytes_of_hex ht) in
+      let seg s = match String.split_on_char '/' s with
+        | [hd; hs; items] -> ((bytes_of_hex hd, bytes_of_hex hs), List.map item_of_string (csv items))
+        | _ -> failwith "bad segment" in
+      (match c14_impl_run_segments (n_of_int (int_of_string junk)) table (List.map seg segs) with
        | Some (((m, out), reqs), rem) ->
          Printf.printf "mode=%d rem=%d bytes=%s audio=%s\n" (int_of_n m) (int_of_nat rem) (hex_of_bytes out) (audio_md5 reqs)
        | None -> print_endline "blocked")
